@@ -237,6 +237,21 @@ func runConf(lines []string, out *bufio.Writer) {
 				}
 			}
 			fmt.Fprintf(out, "%s impl direct %s\n", c.ID, same)
+			// WHAT the chain is built on: with http.DefaultTransport a plain *http.Transport (as in every program that did not
+			// replace it), the innermost `next` must be that very object — "wrap the transport" (C19_init_transport)
+			sentinel := &http.Transport{}
+			var innermost http.RoundTripper
+			capture := middleware.Middleware(func(next http.RoundTripper) http.RoundTripper { innermost = next; return next })
+			old := http.DefaultTransport
+			http.DefaultTransport = sentinel
+			conf2 := shoot.NewWith(append(append([]rcOpt{}, opts...), shoot.Use(capture))...)
+			conf2.BuildMiddleware()
+			http.DefaultTransport = old
+			basert := "default"
+			if innermost != http.RoundTripper(sentinel) {
+				basert = fmt.Sprintf("other:%T", innermost)
+			}
+			fmt.Fprintf(out, "%s impl basert %s\n", c.ID, basert)
 		})
 	}
 }
